@@ -68,6 +68,9 @@ func resolveStruct(rv reflect.Value, fieldName string) (any, bool) {
 
 		// Parse the JSON tag, stripping options (e.g., "user_id,omitempty" -> "user_id")
 		tagName := strings.Split(tag, ",")[0]
+		if tag == "-" {
+			continue // not a name: the field is excluded from tag addressing
+		}
 		if tagName == fieldName {
 			fv, err := rv.FieldByIndexErr(f.Index)
 			if err != nil || !fv.CanInterface() {
@@ -167,6 +170,11 @@ func structToMap(data any, onPath map[uintptr]bool) map[string]any {
 			continue
 		}
 
+		// (a field tagged json:"-" is hidden from templates under any tag name; its Go name still reaches it)
+		if f.Tag.Get("json") == "-" {
+			continue
+		}
+
 		// Get the JSON tag name, default to field name if no tag
 		tagName := f.Name
 		if tag := f.Tag.Get("json"); tag != "" {
@@ -216,6 +224,9 @@ func hasExportedFields(t reflect.Type) bool {
 func addPromotedFields(result map[string]any, rv reflect.Value, onPath map[uintptr]bool) {
 	for _, f := range reflect.VisibleFields(rv.Type()) {
 		if len(f.Index) < 2 || !f.IsExported() {
+			continue
+		}
+		if f.Tag.Get("json") == "-" {
 			continue
 		}
 		tagName, _, _ := strings.Cut(f.Tag.Get("json"), ",")
@@ -296,6 +307,11 @@ func PopulateStructFields(m map[string]any, data any) {
 		f := rt.Field(i)
 		// Only export fields
 		if !f.IsExported() {
+			continue
+		}
+
+		// (a field tagged json:"-" is hidden from templates under any tag name; its Go name still reaches it)
+		if f.Tag.Get("json") == "-" {
 			continue
 		}
 
